@@ -54,6 +54,36 @@ JUnary(ev, reg) ==
   IN ExpectDen(ev, "poly", CASE ev.op = "neg" -> DNeg(a) [] ev.op = "pos" -> a
                                 [] ev.op = "square" -> DMul(a, a))
 
+\* ------------------------------------------ C09 shape functions and indexing
+\* ev.gather: what numpy does with the positions (observed on label arrays);
+\* ev.model: parameters for the specification's own gather map (core subset)
+ModelGather(m, ss) ==
+  CASE m.fn = "reshape" -> GReshape(ss[1], m.shape)
+    [] m.fn = "transpose" -> GTranspose(ss[1], m.perm)
+    [] m.fn = "concat" -> GConcat(ss, m.axis)
+    [] m.fn = "index" -> GIndex(ss[1], m.items)
+SameDType(ev, reg) ==      \* the common dtype of the polynomial operands, if there is one
+  LET ds == {reg[ev.args[i]].v.dtype : i \in 1..Len(ev.args)}
+  IN IF Cardinality(ds) = 1 THEN CHOOSE d \in ds : TRUE ELSE ""
+OperandNames(ev, reg) ==
+  UNION {IF reg[ev.args[i]].v.kind = "poly" THEN RangeOf(reg[ev.args[i]].v.names) ELSE {} : i \in 1..Len(ev.args)}
+JMove(ev, reg, opts) ==
+  LET ds == [i \in 1..Len(ev.args) |-> reg[ev.args[i]].d]
+      ss == [i \in 1..Len(ev.args) |-> ds[i].shape]
+      dt == SameDType(ev, reg)
+  IN IF ev.out = "raise" THEN "raised" ELSE IF ev.out = "timeout" THEN "timeout"
+     ELSE IF Len(ev.res) # Len(ev.gather) THEN "arity"
+     ELSE IF \E i \in 1..Len(ev.gather) : ~GatherOK(ev.gather[i], ss) THEN "machinery_gather"
+     ELSE IF ev.model # <<>> /\ ModelGather(ev.model[1], ss) # ev.gather[1] THEN "machinery_gather_model"
+     ELSE First([i \in 1..Len(ev.gather) |->
+            LET own == ExpectDenAt(ev, i, "poly", DGather(ev.gather[i], ds))
+                r == ev.res[i]
+            IN IF own # "ok" THEN own
+               ELSE IF dt # "" /\ r.dtype # dt THEN "dtype"
+               ELSE IF ~(RangeOf(r.names) \subseteq OperandNames(ev, reg)) THEN "names"
+               ELSE IF opts.retain_names /\ Len(ev.args) = 1 /\ r.names # reg[ev.args[1]].v.names THEN "names"
+               ELSE "ok"])
+
 \* -------------------------------------------------------------- C14 options
 OptAct(ev) == ev.act \in {"set_options", "enter", "exit", "exit_exc", "get_mutate", "get_defaults"}
 NextOpts(ev, opts, ctx) ==
@@ -75,10 +105,14 @@ JOption(ev, opts, ctx) ==
     [] ev.act = "get_defaults" -> IF ev.out = "ret" /\ ev.seen = DefaultOptions THEN "ok" ELSE "defaults"
 
 \* ------------------------------------------------------------------ dispatch
+NeedsDen(ev) == ev.act \in {"arith", "unary", "move"}
 Own(ev, reg, opts, ctx) ==
   CASE ev.act = "new" -> "ok"
+    [] \E i \in 1..Len(ev.args) : ev.args[i] \notin 1..Len(reg) -> "machinery_operand"
+    [] NeedsDen(ev) /\ \E i \in 1..Len(ev.args) : reg[ev.args[i]].d = <<>> -> "machinery_operand"
     [] ev.act = "arith" -> JArith(ev, reg)
     [] ev.act = "unary" -> JUnary(ev, reg)
+    [] ev.act = "move" -> JMove(ev, reg, opts)
     [] OptAct(ev) -> JOption(ev, opts, ctx)
     [] OTHER -> "unknown_action"
 
